@@ -6,6 +6,7 @@
 import Esc.Json
 import Esc.Gen.Validate
 import Esc.Gen.Keys
+import Esc.Assemble
 open Lean
 namespace Esc
 
@@ -299,6 +300,47 @@ def handleStartup (j : Json) : OpOut :=
       tag := if mAcc then "startup:accepted" else "startup:refused",
       model := Json.mkObj [("accepted", toJson mAcc), ("failing", toJson badOnes)] }
   | .error e => { diffs := ["bad-case:" ++ e] }
+
+deriving instance FromJson, ToJson for ACfg, ACloud
+
+/-- `assemble`: what `setupNodeGroups` / `setupCloudProvider` of the built program made of a file of valid node groups,
+    against `Esc.assemble`. Monitors: a group's dry-mode switch is its own (C11); its cloud configuration is made from
+    its own entry (C12; the ready-timeout also C17); its options are what the file says (C16). -/
+def handleAssemble (j : Json) : OpOut :=
+  match j.getObjValAs? (List ACfg) "cfgs" with
+  | .error e => { diffs := ["bad-case:" ++ e] }
+  | .ok cfgs =>
+    let master : Bool := getD j "master" false
+    let obs := (j.getObjVal? "obs").toOption.getD Json.null
+    let ok : Bool := getD obs "ok" false
+    let m := assemble master cfgs
+    if !ok then
+      { diffs := ["assemble-no-dump"], tag := "assemble:no-dump", model := toJson (m.groups.map (·.1)) }
+    else
+      let oMaster : Bool := getD obs "master" false
+      let oNames : List String := getD obs "names" []
+      let oDries : List Bool := getD obs "dries" []
+      let oChanged : List Nat := getD obs "optsChanged" []
+      let oCloud : List ACloud := getD obs "cloud" []
+      let oProvider : String := getD obs "provider" ""
+      let idx := List.range cfgs.length
+      let dryBad := idx.filter (fun i => (oMaster || (oDries[i]?).getD false) != m.dryOf i)
+      let cloudBad := idx.filter (fun i => oCloud[i]? != m.cloud[i]?)
+      let timeoutOnly := cloudBad.filter (fun i => match oCloud[i]?, m.cloud[i]? with
+        | some a, some b => { a with timeoutNs := b.timeoutNs } == b
+        | _, _ => false)
+      let nm (i : Nat) : String := ((cfgs[i]?).map (·.name)).getD "?" ++ "#" ++ toString i
+      { diffs := (if oMaster == m.master && oNames == m.groups.map (·.1) && oDries == m.groups.map (·.2) then [] else ["assemble-groups"])
+              ++ (if oCloud == m.cloud && oProvider == "aws" then [] else ["assemble-cloud"])
+              ++ (if oChanged.isEmpty then [] else ["assemble-opts"]),
+        mon := dryBad.map (fun i => "C11:assembly-changes-dry-mode-of-group:" ++ nm i)
+            ++ (if oNames.length != cfgs.length || oCloud.length != cfgs.length then
+                  ["C12:assembly-loses-or-invents-groups", "C16:assembly-loses-or-invents-groups"] else [])
+            ++ (cloudBad.filter (fun i => !timeoutOnly.contains i)).map (fun i => "C12:cloud-config-of-group-not-made-from-its-own-entry:" ++ nm i)
+            ++ timeoutOnly.map (fun i => "C17:fleet-ready-timeout-differs-from-the-option:" ++ nm i)
+            ++ oChanged.map (fun i => "C16:assembly-changes-options-of-group:" ++ nm i),
+        tag := "assemble:" ++ toString cfgs.length ++ (if master then ":master" else ""),
+        model := toJson m.cloud }
 
 def handleDecode (j : Json) : OpOut :=
   let key : String := getD j "key" ""
